@@ -1446,6 +1446,10 @@ REAL_DOPS = [
     ("tab_dec_prec", 8, _tab([(0, 10), (255, 0)]), '<PHYSICAL-TYPE BASE-DATA-TYPE="A_FLOAT64"><PRECISION>1</PRECISION></PHYSICAL-TYPE>'),
     ("scale_lin", 8, "<COMPU-METHOD><CATEGORY>SCALE-LINEAR</CATEGORY><COMPU-INTERNAL-TO-PHYS><COMPU-SCALES>" + _lin(0, 0.5, 0, 100) +
      _lin(25, 0.25, 100, 255) + "</COMPU-SCALES></COMPU-INTERNAL-TO-PHYS></COMPU-METHOD>", None),
+    # continuous scales whose decimal coefficients are no binary fractions: the scales meet only up to rounding
+    # (0.1 * 12 = 1.2000000000000002, 0.3 * 12 - 2.4 = 1.1999999999999997), the method is invertible all the same
+    ("scale_dec", 8, "<COMPU-METHOD><CATEGORY>SCALE-LINEAR</CATEGORY><COMPU-INTERNAL-TO-PHYS><COMPU-SCALES>" + _lin(0, 0.1, 0, 12) +
+     _lin(-2.4, 0.3, 12, 100) + _lin(-42.4, 0.7, 100, 255) + "</COMPU-SCALES></COMPU-INTERNAL-TO-PHYS></COMPU-METHOD>", None),
     # rational functions with a denominator polynomial which is not constant (no pole in the coded range):
     # p = 200 / (x + 2), x = (200 - 2 p) / p;   p = (3 + x) / (1 + 2 x), x = (3 - p) / (2 p - 1) (decreasing, p > 1/2)
     ("rat_hyp", 8, _ratfunc_cm("RAT-FUNC", [200], [2, 1], [200, -2], [0, 1]), None),
